@@ -54,7 +54,7 @@ impl Path {
         let mut cur_pt = None;
         // the start of the current subpath: where Close takes us back to
         let mut start_pt = None;
-        let mut flattened = Path { ops: Vec::new(), winding: Winding::NonZero };
+        let mut flattened = Path { ops: Vec::new(), winding: self.winding };
         for op in &self.ops {
             match *op {
                 PathOp::MoveTo(pt) => {
